@@ -251,7 +251,7 @@ def run_check(mod, tier: str) -> int:
     harness_errors = []
     stopped_early = False
     ctx = multiprocessing.get_context("fork")
-    with ProcessPoolExecutor(max_workers=workers, mp_context=ctx, max_tasks_per_child=b.get("tasks_per_child")) as ex:
+    with ProcessPoolExecutor(max_workers=workers, mp_context=ctx) as ex:
         futs = {}
         it = iter(chunks)
 
@@ -319,7 +319,10 @@ def run_check(mod, tier: str) -> int:
             det_report["same_process_rerun"] += 1
         gc.enable()
         fresh = sorted(digests)[: (4 if tier == "quick" else 24)]
-        for hs in ((1,) if tier == "quick" else (1, 31337)):
+        hashseeds = (1,) if tier == "quick" else (1, 31337)
+        if getattr(mod, "HASHSEED_SENSITIVE", False):
+            hashseeds = (int(os.environ.get("PYTHONHASHSEED", "0") or 0),)
+        for hs in hashseeds:
             got = _fresh_interpreter_digests(mod, tier, seed, fresh, hs)
             for i in fresh:
                 if got.get(i) != digests[i]:
